@@ -27,8 +27,8 @@ func lookupIntrinsic(fn *ssa.Function) (intrinsicFn, bool) {
 		return in, true
 	}
 	// harness vocabulary: <pkg>.verifXxx
-	if i := strings.LastIndex(name, ".verif"); i >= 0 && !strings.ContainsAny(name[i+1:], ".$") {
-		if in, ok := verifIntrinsics[name[i+1:]]; ok {
+	if i := strings.LastIndex(stripTypeArgs(name), ".verif"); i >= 0 && !strings.ContainsAny(stripTypeArgs(name)[i+1:], ".$") {
+		if in, ok := verifIntrinsics[stripTypeArgs(name)[i+1:]]; ok {
 			return in, true
 		}
 	}
@@ -635,7 +635,7 @@ func init() {
 		return m.indexSym(strBytes(a[0]), strBytes(a[1])), true
 	})
 	reg("internal/bytealg.MakeNoZero", func(m *machine, fr *frame, fn *ssa.Function, a []value) (value, bool) {
-		n := m.concInt(a[0], "MakeNoZero")
+		n := m.concLen(fr, a[0], "MakeNoZero: len out of range")
 		return m.makeSlice(types.Typ[types.Uint8], int(n), int(n)), true
 	})
 	reg("internal/stringslite.Index", func(m *machine, fr *frame, fn *ssa.Function, a []value) (value, bool) {
@@ -704,7 +704,12 @@ func init() {
 		s, ok := a[0].(string)
 		bs, ok2 := a[1].(int64)
 		if !ok || !ok2 {
-			panic(unsupported("strconv.ParseFloat on symbolic string"))
+			// symbolic text: the parse either fails or yields some float (havoc); an empty string always fails
+			m.havocs++
+			if strLen(a[0]) > 0 && m.choose(2, "ParseFloat") == 0 {
+				return tuple{&sym{t: m.fresh("fhavoc", 64)}, iface{}}, true
+			}
+			return tuple{float64(0), m.newErrorString("strconv.ParseFloat: parsing <symbolic>: invalid syntax")}, true
 		}
 		v, err := strconv.ParseFloat(s, int(bs))
 		if err != nil {
@@ -924,12 +929,12 @@ func (m *machine) errIs(fr *frame, err, target iface, comparable bool, depth int
 				return true
 			}
 		}
-		if f := m.p.prog.LookupMethod(err.t, nil, "Is"); f != nil && f.Signature.Params().Len() == 1 {
+		if f := m.findMethod(err.t, "Is"); f != nil && f.Signature.Params().Len() == 1 {
 			if r, ok := m.callFn(fr.g, fr, f, []value{err.v, target}, nil, nil).(bool); ok && r {
 				return true
 			}
 		}
-		f := m.p.prog.LookupMethod(err.t, nil, "Unwrap")
+		f := m.findMethod(err.t, "Unwrap")
 		if f == nil {
 			return false
 		}
@@ -965,7 +970,7 @@ func (m *machine) tryErrorString(i iface) (string, bool) {
 	if i.t == runtimeErrorType {
 		return i.v.(string), true
 	}
-	f := m.p.prog.LookupMethod(i.t, nil, "Error")
+	f := m.findMethod(i.t, "Error")
 	if f == nil || f.Signature.Params().Len() != 0 || m.cur == nil {
 		return "", false
 	}
@@ -1005,7 +1010,7 @@ func (m *machine) formatValue(fr *frame, v value, verb byte) string {
 			if s, ok := m.tryErrorString(x); ok {
 				return s
 			}
-			if f := m.p.prog.LookupMethod(x.t, nil, "String"); f != nil && f.Signature.Params().Len() == 0 && f.Signature.Results().Len() == 1 {
+			if f := m.findMethod(x.t, "String"); f != nil && f.Signature.Params().Len() == 0 && f.Signature.Results().Len() == 1 {
 				if s, ok := m.callFn(fr.g, fr, f, []value{x.v}, nil, nil).(string); ok {
 					return s
 				}
@@ -1160,4 +1165,17 @@ func (m *machine) errorf(fr *frame, fn *ssa.Function, format value, args []value
 	st[0] = msg
 	o := m.newObject(st, "errors.errorString")
 	return iface{t: types.NewPointer(et), v: ptr{o: o, c: &o.v}}
+}
+
+// findMethod is LookupMethod for exported method names that returns nil when the type has no
+// such method (ssa.Program.LookupMethod panics in that case).
+func (m *machine) findMethod(t types.Type, name string) *ssa.Function {
+	if t == nil || t == runtimeErrorType {
+		return nil
+	}
+	sel := m.p.prog.MethodSets.MethodSet(t).Lookup(nil, name)
+	if sel == nil {
+		return nil
+	}
+	return m.p.prog.MethodValue(sel)
 }
